@@ -1319,6 +1319,14 @@ var goldenCmds = []golden{
 	{"sort", []string{"k", "LIMIT", "0", "5", "STORE", "d"}, []int{0, 5}},
 	{"georadius", []string{"k", "0", "0", "1", "m", "STORE", "d"}, []int{0, 6}},
 	{"georadiusbymember", []string{"k", "m", "1", "km", "STOREDIST", "d"}, []int{0, 5}},
+	// session 5 (repair 975110c of finding C18-F1): positions as Redis's georadiusGetKeys / sortGetKeys name them -
+	// the LAST store option, option words looked for behind the fixed arguments only, LIMIT's arguments stepped over
+	{"georadius", []string{"k", "0", "0", "1", "m", "STORE", "a", "STOREDIST", "d"}, []int{0, 8}},
+	{"georadius", []string{"k", "0", "0", "1", "m", "COUNT", "3", "ASC", "STOREDIST", "a", "STORE", "d"}, []int{0, 11}},
+	{"georadiusbymember", []string{"k", "store", "1", "km", "STORE", "d"}, []int{0, 5}},
+	{"georadiusbymember", []string{"k", "STOREDIST", "1", "km", "WITHCOORD", "STOREDIST", "d"}, []int{0, 6}},
+	{"sort", []string{"k", "STORE", "a", "STORE", "d"}, []int{0, 4}},
+	{"sort", []string{"k", "BY", "nosort", "LIMIT", "0", "10", "GET", "#", "DESC", "STORE", "d"}, []int{0, 10}},
 }
 
 // RunGolden checks the table against the golden positions and ties the model
